@@ -110,9 +110,21 @@ def is_helper(db, caller, callee):
     if callee.get('lambda'):
         return callee.get('parent_key') == caller.get('key') or callee.get('parent_key') == caller.get('parent_key')
     a, b = class_of(db, caller), class_of(db, callee)
+    if not b and not callee.get('class') and re.match(r'cocls::(detail|details|_details|_detail)::', callee.get('nname') or '') and not callee.get('coroutine'):
+        # a small free function of the library's internal namespace (constexpr predicate, one-line accessor): a helper of whoever calls it
+        if sum(1 for _ in callee.events()) <= 14 and not has_back_edge_cached(callee):
+            return True
     if not a or not b:
         return False
     return a == b or a.startswith(b + '::') or b.startswith(a + '::') or derives(db, a, b) or derives(db, b, a)
+
+
+def has_back_edge_cached(f):
+    from .core import has_back_edge
+    v = f.get('_hbe')
+    if v is None:
+        v = f['_hbe'] = bool(has_back_edge(f))
+    return v
 
 
 def derives(db, cls, base, depth=4):
@@ -174,6 +186,7 @@ def traces_of(db, name, depth=0, inline=None, exc=None, lambdas=False, per_insta
         depth = max(depth, 3)
         inline = lambda caller, ev, callee: bool(user and user(caller, ev, callee)) or is_helper(db, caller, callee)
     T = Tracer(db, depth=depth, inline_filter=inline, exc_edges=exc, limit=limit, maxvisit=maxvisit)
+    T.closures_on_stack = bool(helpers)
     out = []
     fns = db.fns(name, lambdas=lambdas)
     if len(fns) < need:
@@ -443,10 +456,10 @@ def delta_of_write(ev):
 
 
 def resume_functions(db, ctor_or_fn_name):
-    """functions installed as an awaiter's resume function inside `ctor_or_fn_name`: arguments of set_resume_fn / of the awaiter base
-    constructor that are a lambda or a named (static member) function"""
+    """functions installed as an awaiter's resume function inside `ctor_or_fn_name` (a name, or a list of function instances): arguments of
+    set_resume_fn / of the awaiter base constructor that are a lambda or a named (static member) function"""
     out = []
-    for f in db.fns(ctor_or_fn_name):
+    for f in (db.fns(ctor_or_fn_name) if isinstance(ctor_or_fn_name, str) else ctor_or_fn_name):
         for e in f.events():
             if e.k in ('call', 'construct') and (norm(e.get('callee')) in ('cocls::awaiter::set_resume_fn', 'cocls::awaiter::awaiter') or norm(e.get('callee') or '').endswith('_promise_base::future_conv_promise_base') or 'awaiter::awaiter' in norm(e.get('callee') or '') or norm(e.get('callee') or '').endswith('::awaiter')):
                 for a in e.get('args', []):
@@ -454,9 +467,16 @@ def resume_functions(db, ctor_or_fn_name):
                     m = re.search(r'lambda@(\S+?)\)*$', p)
                     if m:
                         out.extend(db.closure_instances(f, m.group(1)))
-                    m = re.search(r'fn:([\w:~<>, ]+)', p)
+                    m = re.search(r'fn:(.+?)\)*$', p) if 'fn:' in p else None
                     if m:
-                        out.extend(db.fns(norm(m.group(1))))
+                        nm = m.group(1)
+                        while nm.count(')') > nm.count('('):
+                            nm = nm[:nm.rfind(')')]
+                        got = db.fns(norm(nm))
+                        if not got:
+                            # local classes: the printed name of the target may differ in its template arguments; match on the normalised name
+                            got = [g for g in db.all_instances() if g['nname'] == norm(nm)]
+                        out.extend(got)
         # conversion of a capture-less lambda to a function pointer shows as a call of the closure's conversion operator
         for e in f.events():
             if e.k == 'call' and 'operator cocls::suspend_point' in (e.get('callee') or '') and (e.get('recv') or '').startswith('lambda@'):
@@ -471,8 +491,10 @@ def resume_functions(db, ctor_or_fn_name):
 
 def htracer(db, extra=None, exc=None, maxvisit=2, limit=20000, depth=3):
     """a Tracer that expands calls to helpers of the code under analysis (same class / local lambdas), plus what `extra` accepts"""
-    return Tracer(db, depth=depth, inline_filter=lambda caller, ev, callee: bool(extra and extra(caller, ev, callee)) or is_helper(db, caller, callee),
-                  exc_edges=exc, maxvisit=maxvisit, limit=limit)
+    T = Tracer(db, depth=depth, inline_filter=lambda caller, ev, callee: bool(extra and extra(caller, ev, callee)) or is_helper(db, caller, callee),
+               exc_edges=exc, maxvisit=maxvisit, limit=limit)
+    T.closures_on_stack = True
+    return T
 
 
 LOCK_TYPES = re.compile(r'\b(lock_guard|unique_lock|scoped_lock)\b')
@@ -530,7 +552,11 @@ def ret_const(tr):
 def resume_bodies(db, name):
     """the bodies that run when an awaiter set up inside `name` is resumed: local lambdas of `name` plus named functions it installs
     as resume function (a maintainer may turn the capture-less lambda into a static member function)"""
-    out = list(lambdas_of(db, name)); seen = {(g['key'], g['inst']) for g in out}
+    if isinstance(name, str):
+        out = list(lambdas_of(db, name))
+    else:
+        out = [lf for f in name for e in f.events() if e.k == 'lambda' for lf in db.closure_instances(f, e['fn_key'])]
+    seen = {(g['key'], g['inst']) for g in out}
     try:
         extra = resume_functions(db, name)
     except Broken:
